@@ -12,7 +12,7 @@ import (
 )
 
 func init() {
-	register("C15", checkC15, "Exactly-once/in-order delivery over all segmentations is NOT decided as a whole. Decided necessary conditions, by abstract interpretation of the assembler with a ghost model of its bytes.Buffer (unread length and content, updated by Write/Next/Reset/Truncate): R15.1 the frame is consumed by Next(n) only where the facts entail n <= unread length, with n the classifier's expected length, so nothing is parsed or answered before the request is complete; and every 'wait for more' return is reached only with fewer than 8 bytes or fewer than n bytes buffered (a complete request is never withheld). R15.2 every return that produces a reply has removed the answered bytes from the buffer (exactly n, or everything) or closes the connection, so leftovers cannot be re-read. R15.3 ReceiveRead re-invokes the per-packet step in a loop until it reports nothing to handle, and appends each reply after the ones produced before (order). R15.4 the connection loop hands the assembler exactly received[0:n] of the Read just made and writes the returned reply before the next Read. R15.3 additionally: every return inside the loop hands back the accumulated replies (including the one just produced on the close path). R15.5 the assembler factory the server installs returns an object allocated by that very call, and is invoked after each Accept inside the accept loop. R15.6 for 8 or more buffered bytes the classifier's verdict depends on the header bytes only: returns with different verdicts are separated by byte conditions alone once conditions on len(data) are removed. R15.4 also: the loop reads again without having called the assembler only on an edge whose state entails n == 0 (no byte that was read is dropped). R15.7 no slice field of a parsed TCP request aliases the parser's input. R15.3 also: no return of ReceiveRead precedes the first step call, and ReceiveRead and the step have pointer receivers. R15.2 also: a closing return is reached only where the state pins the classifier's error to one sentinel (the connection is given up only on the classifier's verdict). R15.8 = C16 R16.1 (the assembler's unchecked assertions on parser errors cannot fail).")
+	register("C15", checkC15, "Exactly-once/in-order delivery over all segmentations is NOT decided as a whole. Decided necessary conditions, by abstract interpretation of the assembler with a ghost model of its bytes.Buffer (unread length and content, updated by Write/Next/Reset/Truncate): R15.1 the frame is consumed by Next(n) only where the facts entail n <= unread length, with n the classifier's expected length, so nothing is parsed or answered before the request is complete; and every 'wait for more' return is reached only with fewer than 8 bytes or fewer than n bytes buffered (a complete request is never withheld). R15.2 every return that produces a reply has removed the answered bytes from the buffer (exactly n, or everything) or closes the connection, so leftovers cannot be re-read. R15.3 ReceiveRead re-invokes the per-packet step in a loop until it reports nothing to handle, and appends each reply after the ones produced before (order). R15.4 the connection loop hands the assembler exactly received[0:n] of the Read just made and writes the returned reply before the next Read. R15.3 additionally: every return inside the loop hands back the accumulated replies (including the one just produced on the close path). R15.5 the assembler factory the server installs returns an object allocated by that very call, and is invoked after each Accept inside the accept loop. R15.6 for 8 or more buffered bytes the classifier's verdict depends on the header bytes only: returns with different verdicts are separated by byte conditions alone once conditions on len(data) are removed. R15.4 also: the loop reads again without having called the assembler only on an edge whose state entails n == 0 (no byte that was read is dropped). R15.7 no slice field of a parsed TCP request aliases the parser's input. R15.3 also: no return of ReceiveRead precedes the first step call, and ReceiveRead and the step have pointer receivers. R15.2 also: a closing return is reached only where the state pins the classifier's error to one sentinel (the connection is given up only on the classifier's verdict). R15.8 = C16 R16.1 (the assembler's unchecked assertions on parser errors cannot fail). R15.9 no method of the assembler type outside what ReceiveRead reaches calls a method of its bytes.Buffer.")
 }
 
 func checkC15(c *Ctx, r *Report) {
